@@ -252,9 +252,12 @@ theorem DInv.addRawTx {n : Node} {G : Ghost} (r : RInv n G) (h : DInv n G) (ts :
           by_cases h4 : (!poolOnly evs) = true
           · rw [if_pos h4, if_pos h4]; exact h
           · rw [if_neg h4, if_neg h4]
-            cases ha : applyEvents n n.nextHeight evs with
-            | none => exact h
-            | some n' => exact h.events r ha rfl (applyEvents_bstep ha).nextHeight_le
+            by_cases h5 : (!parkedShape sender nonce n.nextHeight evs) = true
+            · rw [if_pos h5, if_pos h5]; exact h
+            · rw [if_neg h5, if_neg h5]
+              cases ha : applyEvents n n.nextHeight evs with
+              | none => exact h
+              | some n' => exact h.events r ha rfl (applyEvents_bstep ha).nextHeight_le
       · rw [if_neg h2, if_neg h2]
         split <;> exact h
     · rw [if_neg h1, if_neg h1]
